@@ -85,9 +85,14 @@ def bands(rec, part, parts):
         vals = np.array([1.5 + 0.25 * g for g in payload]) if kind == 'tie pattern' else np.array(payload)
         times = [2.0, 0.5] if kind == 'tie pattern' or len(payload) % 2 else [86400.25, 86400.0, 0.5]     # distinct times that are close relative to their magnitude must not be pooled
         rows = []
-        for t in times:
+        for k_t, t in enumerate(times):
             shift = 10.0 * t if t < 1000 else (40.0 if t == 86400.0 else -40.0)
-            for v in vals:
+            # unequal numbers of samples per time point (pooled simulations on different grids) whose total is still a multiple of the number
+            # of time points: the first time point gets one sample fewer, the last one more
+            use = vals
+            if kind == 'random' and len(vals) > 12 and len(vals) % 3 == 0 and len(times) >= 2:
+                use = vals[:-1] if k_t == 0 else (np.concatenate([vals, [vals[0] + 0.37]]) if k_t == len(times) - 1 else vals)
+            for v in use:
                 rows.append({'Time': t, 'Observable': 'o', 'Value': v + shift, 'ID': 1, 'Dose': np.nan, 'Duration': np.nan})
         df = pd.DataFrame(rows)
         ref = df.copy(deep=True)
